@@ -9,7 +9,7 @@
    together with the output vector; [None] stands for "outside the documented domain"
    (out-of-range storage access, dimension mismatch). *)
 From Coq Require Import ZArith List Bool Lia.
-From Covfie Require Import Numeric Layout Hilbert LayoutMem.
+From Covfie Require Import Numeric Layout Hilbert LayoutMem LinearCore AlgebraCore.
 Import ListNotations.
 Local Open Scope Z_scope.
 
@@ -185,11 +185,8 @@ Section Eval.
 
   (* affine: v' = A * (v ++ [1]) with the summation order of algebra/matrix.hpp:
      t = 0; for k: t += A(i,k) * r(k) *)
-  Fixpoint dot (t : sty) (acc : Z) (row r : list Z) : Z :=
-    match row, r with
-    | a :: row', x :: r' => dot t (f_add ops t acc (f_mul ops t a x)) row' r'
-    | _, _ => acc
-    end.
+  (* the dot product of matrix.hpp (t = 0; t += a * x), shared with AlgebraProofs.v through AlgebraCore *)
+  Definition dot (t : sty) (acc : Z) (row r : list Z) : Z := AlgebraCore.dot (f_add ops t) (f_mul ops t) acc row r.
   Fixpoint rows (n : nat) (w : nat) (m : list Z) : list (list Z) :=
     match n with O => [] | S n' => firstn w m :: rows n' w (skipn w m) end.
   Definition affine_apply (t : sty) (m : list Z) (c : list Z) : list Z :=
@@ -210,7 +207,6 @@ Section Eval.
      FIRST axis on the most significant bit and sum  w_0*v_0 + w_1*v_1 + ... left to right with
      weights (ra|a)_0 * (ra|a)_1 * ... left to right; the generic branch uses bit k of n for axis k,
      starts from 0 and accumulates f * v with f = 1 * w_0 * w_1 ... *)
-  Definition sel (bit : bool) (a ra : Z) : Z := if bit then a else ra.
 
   Fixpoint gather (b : query) (cs : list (list Z)) : option (list Z * list (list Z)) :=
     match cs with
@@ -230,17 +226,26 @@ Section Eval.
     let N := length is_ in
     map (fun '(k, i) => wrap_sty tidx (i + (if bitof n (N - 1 - k) then 1 else 0))) (combine (seq 0 N) is_).
 
+  (* the weights are LinearCore's, instantiated with the arithmetic of the coordinate type *)
   Definition weight_special (t : sty) (a ra : list Z) (n : nat) : Z :=
-    let N := length a in
-    match combine (seq 0 N) (combine a ra) with
-    | [] => f_of_Z ops t 1
-    | (k0, (a0, r0)) :: rest =>
-        fold_left (fun acc '(k, (ak, rk)) => f_mul ops t acc (sel (bitof n (N - 1 - k)) ak rk))
-                  rest (sel (bitof n (N - 1 - k0)) a0 r0)
-    end.
+    LinearCore.weight_special (f_of_Z ops t 1) (f_mul ops t) a ra n.
   Definition weight_generic (t : sty) (a ra : list Z) (n : nat) : Z :=
-    fold_left (fun acc '(k, (ak, rk)) => f_mul ops t acc (sel (bitof n k) ak rk))
-              (combine (seq 0 (length a)) (combine a ra)) (f_of_Z ops t 1).
+    LinearCore.weight_generic (f_of_Z ops t 1) (f_mul ops t) a ra n.
+
+  (* output component q from the 2^N corner values [vals] (each a vector of stored scalars) *)
+  Definition linear_comp (tc tv : sty) (special : bool) (a ra : list Z) (vals : list (list Z)) (q : nat) : Z :=
+    let ns := seq 0 (2 ^ length a) in
+    let w := map (if special then weight_special tc a ra else weight_generic tc a ra) ns in
+    let terms := map (fun '(wn, v) => f_mul ops tc wn (s_conv ops tv tc (nth q v 0))) (combine w vals) in
+    if special then
+      (* the whole expression is evaluated at the coordinate precision, then stored *)
+      s_conv ops tc tv (LinearCore.sum_special (f_of_Z ops tc 0) (f_add ops tc) terms)
+    else
+      (* rv[q] = 0.f; rv[q] += f * v : the accumulator has the STORED type, each addition is done
+         at the wider of the two types (usual arithmetic conversions) and stored back *)
+      let common := if sty_eqb tc F64 || sty_eqb tv F64 then F64 else F32 in
+      fold_left (fun acc term => s_conv ops common tv (f_add ops common (s_conv ops tv common acc) (s_conv ops tc common term)))
+                terms (f_of_Z ops tv 0).
 
   Definition linear_at (tc tidx tv : sty) (b : query) : query :=
     fun c =>
@@ -256,23 +261,7 @@ Section Eval.
       | None => None
       | Some (tr, vals) =>
           let M := match vals with v :: _ => length v | [] => O end in
-          let w := map (if special then weight_special tc a ra else weight_generic tc a ra) ns in
-          let comp (q : nat) : Z :=
-            let terms := map (fun '(wn, v) => f_mul ops tc wn (s_conv ops tv tc (nth q v 0))) (combine w vals) in
-            if special then
-              (* the whole expression is evaluated at the coordinate precision, then stored *)
-              s_conv ops tc tv
-                match terms with
-                | [] => f_of_Z ops tc 0
-                | t0 :: rest => fold_left (f_add ops tc) rest t0
-                end
-            else
-              (* rv[q] = 0.f; rv[q] += f * v : the accumulator has the STORED type, each addition is done
-                 at the wider of the two types (usual arithmetic conversions) and stored back *)
-              let common := if sty_eqb tc F64 || sty_eqb tv F64 then F64 else F32 in
-              fold_left (fun acc term => s_conv ops common tv (f_add ops common (s_conv ops tv common acc) (s_conv ops tc common term)))
-                        terms (f_of_Z ops tv 0) in
-          Some (tr, map comp (seq 0 M))
+          Some (tr, map (linear_comp tc tv special a ra vals) (seq 0 M))
       end.
 
   (* ---- primitives ---- *)
